@@ -65,4 +65,28 @@ def stateless_noperiod_desc(rng):
     return _stateless(rng, False)
 
 
-TEMPLATES = {"int_utility": int_utility_desc, "stateless": stateless_desc, "stateless_noperiod": stateless_noperiod_desc}
+def many_categories_desc(rng):
+    """Two discrete states with many categories (their product exceeds 127 and 255), one of
+    them stochastic with a transition row per (health, skill) pair: the shape in which labels
+    handed over as int8 / uint8 (pandas categorical codes) matter."""
+    nh = int(rng.integers(11, 17))
+    ns = int(rng.integers(12, 18))
+    T = int(rng.integers(2, 4))
+    P = rng.random((nh, ns, nh)) ** 2 + 0.01
+    P = np.where(rng.random((nh, ns, nh)) < 0.5, 0.0, P)
+    P[..., 0] = np.where(P.sum(-1) == 0, 1.0, P[..., 0])
+    P = P / P.sum(-1, keepdims=True)
+    fns = [["utility", ["health", "skill", "d", "k"], "0.05 * health - 0.03 * skill * d + k * d - 0.01 * health * d"],
+           ["next_health", ["health", "skill"], "None"],
+           ["next_skill", ["skill", "d"], f"xp.minimum(skill + d, {ns - 1})"]]
+    params = {"beta": round(float(rng.uniform(0.6, 0.98)), 4), "utility": {"k": round(float(rng.uniform(0.1, 0.6)), 4)},
+              "next_health": {}, "next_skill": {}, "shocks": {"health": P.tolist()}}
+    states = [["health", {"kind": "disc", "n": nh}], ["skill", {"kind": "disc", "n": ns}]]
+    if rng.random() < 0.5:
+        states.reverse()
+    desc = {"n_periods": T, "states": states, "choices": [["d", {"kind": "disc", "n": 2}]],
+            "functions": [fns[i] for i in rng.permutation(len(fns))], "stochastic": ["next_health"], "tables": {}, "params": params}
+    return desc, {"many_categories": True, "stochastic": True}
+
+
+TEMPLATES = {"many_categories": many_categories_desc, "int_utility": int_utility_desc, "stateless": stateless_desc, "stateless_noperiod": stateless_noperiod_desc}
